@@ -8,13 +8,15 @@ from common import LEAN_DIR, VERIF
 # property -> bridge modules ; function names are only for messages
 BRIDGES = {
     "C01": ["Barril.Bridge.Posc", "Barril.Bridge.PoscTable", "Barril.Bridge.Conv", "Barril.Bridge.Info"],
-    "C02": ["Barril.Bridge.Conv", "Barril.Bridge.Mgr2"],
-    "C03": ["Barril.Bridge.Alg"],
-    "C04": ["Barril.Bridge.Alg"],
-    "C05": ["Barril.Bridge.Info"],
+    "C02": ["Barril.Bridge.Conv", "Barril.Bridge.Mgr2", "Barril.Bridge.Fixed2"],
+    "C03": ["Barril.Bridge.Alg", "Barril.Bridge.Alg2"],
+    "C04": ["Barril.Bridge.Alg", "Barril.Bridge.Alg2"],
+    "C05": ["Barril.Bridge.Info", "Barril.Bridge.Alg2", "Barril.Bridge.Ccu"],
     "C08": ["Barril.Bridge.Cmp"],
-    "C11": ["Barril.Bridge.Fixed", "Barril.Bridge.Curve"],
+    "C09": ["Barril.Bridge.Ops"],
+    "C11": ["Barril.Bridge.Fixed", "Barril.Bridge.Curve", "Barril.Bridge.Fixed2"],
     "C12": ["Barril.Bridge.Valid", "Barril.Bridge.Array"],
+    "C15": ["Barril.Bridge.Ccu"],
     "C16": ["Barril.Bridge.Info"],
     "C17": ["Barril.Bridge.Mgr", "Barril.Bridge.Mgr2"],
     "C18": ["Barril.Bridge.Frac", "Barril.Bridge.FV"],
@@ -25,6 +27,14 @@ GENERATED_FROM = {
     "Barril.Bridge.Posc": ["barril/units/posc.py:MakeCustomaryToBase", "barril/units/posc.py:MakeBaseToCustomary"],
     "Barril.Bridge.PoscTable": ["barril/units/posc.py:MakeCustomaryToBase", "barril/units/posc.py:MakeBaseToCustomary"],
     "Barril.Bridge.Alg": ["barril/units/unit_database.py:UnitDatabase._ConvertMatchingExp"],
+    "Barril.Bridge.Alg2": ["barril/units/unit_database.py:UnitDatabase._MatchQuantities",
+                           "barril/units/unit_database.py:UnitDatabase._ConvertMatchingExp",
+                           "barril/units/_quantity.py:Quantity.GetComposingUnitsJoiningExponents",
+                           "barril/units/unit_database.py:UnitDatabase._DoOperationWithSameQuantity"],
+    "Barril.Bridge.Ccu": ["barril/units/unit_database.py:UnitDatabase.CheckCategoryUnit"],
+    "Barril.Bridge.Fixed2": ["barril/units/_fixedarray.py:FixedArray.IndexAsScalar",
+                             "barril/units/_fixedarray.py:FixedArray.ChangingIndex"],
+    "Barril.Bridge.Ops": ["barril/units/_scalar.py:Scalar._DoOperation"],
     "Barril.Bridge.Valid": ["barril/units/_quantity.py:Quantity.CheckValue"],
     "Barril.Bridge.Conv": ["barril/units/unit_database.py:UnitDatabase.Convert"],
     "Barril.Bridge.Info": ["barril/units/unit_database.py:UnitDatabase.GetInfo",
